@@ -271,6 +271,9 @@ def step_diff(ref: list, got: list, positional: bool = True) -> str:
             op = r[0]
             if positional and i > 0 and op in ("next", "send"):
                 op = "resume"  # next() and send(x) into a started generator are the same operation
+                # ... and what it raises is whatever exception is in flight, not part of the cause
+                rc = "raises" if rc.startswith("raises-") else rc
+                gc = "raises" if gc.startswith("raises-") else gc
             if rc == gc:
                 return f"{where}-{op}:{rc}-differs"
             return f"{where}-{op}:{rc}=>{gc if gc.startswith('raises') else 'no-exception' if rc.startswith('raises') else gc}"
